@@ -6,6 +6,7 @@ package main
 import (
 	"bytes"
 	"encoding/hex"
+	"errors"
 	"fmt"
 	"math/big"
 	"net"
@@ -345,6 +346,9 @@ func scenarios(cfg *mc.Config, emit func(mc.Scenario)) {
 	if thorough {
 		b = 3
 	}
+	for _, first := range []string{"resp-write-error", "client-leaves", "garbage", "ok"} {
+		emit(abortedThenConnect(seed, first))
+	}
 	type concT struct {
 		n     int
 		kinds []string
@@ -488,6 +492,102 @@ func scenarios(cfg *mc.Config, emit func(mc.Scenario)) {
 }
 
 // firstBytes returns the hex of the first n bytes an endpoint ever wrote.
+// abortedThenConnect: histories of connections of one process in which some
+// fail at a chosen point; every server response that reached the wire, whether
+// or not its connection survived, carries an ephemeral key no other one has.
+//
+//	resp-write-error: the server's response reaches the peer but the write
+//	    reports an error (the peer reset right behind it);
+//	client-leaves: the client disconnects after a valid handshake, before reading;
+//	garbage: an invalid handshake (never answered).
+func abortedThenConnect(seed int64, first string) mc.Scenario {
+	return mc.Scenario{Name: "aborted-then-connect/" + first, Weight: 20, Run: func(c *mc.Ctx) {
+		br := o4h.NewBridge(seed, "c02/0", 0, false)
+		rnd.Install(rnd.New(seed, "c02-real-aborted"))
+		sf, err := br.ServerFactory()
+		if err != nil {
+			fail(c, "setup", "setup", "%v", err)
+			return
+		}
+		var resp []string
+		var errs []error
+		res := sched.Run(c, sched.Options{NoPreempt: true, NoEarlyTimers: true, MaxSteps: 3_000_000}, func() {
+			s := sched.Cur()
+			for i, kind := range []string{first, first, "ok", "ok"} {
+				cw, sw := wire.Pipe(fmt.Sprintf("client%d", i), fmt.Sprintf("server%d", i))
+				refRnd := rnd.New(seed, fmt.Sprint("c02-ref-aborted-", i))
+				done := false
+				switch kind {
+				case "resp-write-error":
+					sw.WriteFaultAfter = func(n int, _ []byte) error {
+						if n == 0 {
+							return errors.New("connection reset by peer")
+						}
+						return nil
+					}
+				}
+				s.Spawn(fmt.Sprintf("client%d", i), func() {
+					defer func() { done = true }()
+					if kind == "garbage" {
+						cw.Write(refRnd.Bytes(300))
+						cw.Close()
+						return
+					}
+					if kind == "client-leaves" {
+						// a valid request, then gone
+						hello := ref.ClientHello(br.ID.Pub[:], br.ID.NodeID[:], ref.NewEphemeral(refRnd).Repr[:], refRnd.Bytes(90), o4h.Hour())
+						cw.Write(hello)
+						cw.Close()
+						return
+					}
+					rs, _, err := o4h.RefClient(cw, br.ID.Pub[:], br.ID.NodeID[:], o4h.ClientOpts{PadLen: 90}, refRnd)
+					if err == nil && kind == "ok" {
+						rs.Send([]byte("ping"), 0)
+					}
+					buf := make([]byte, 4096)
+					for {
+						if _, err := cw.Read(buf); err != nil {
+							break
+						}
+					}
+					cw.Close()
+				})
+				conn, err := sf.WrapConn(sw)
+				errs = append(errs, err)
+				if err == nil {
+					b := make([]byte, 16)
+					conn.Read(b)
+					conn.Close()
+				} else {
+					sw.Close()
+				}
+				s.Point("client-done", func() bool { return done })
+				resp = append(resp, firstBytes(sw, 32))
+			}
+		})
+		if len(res.Panics) > 0 {
+			fail(c, "no-panic", "panic/aborted", "%s", res.Panics[0])
+			return
+		}
+		c.Observe("errs", fmt.Sprint(errs))
+		if len(errs) == 4 && (errs[2] != nil || errs[3] != nil) {
+			fail(c, "must-complete", "rejected/after-aborted", "a genuine client after %q connections was not served: %v", first, errs)
+			return
+		}
+		seen := map[string]int{}
+		for i, r := range resp {
+			if r == "" {
+				continue // nothing reached the wire
+			}
+			if j, dup := seen[r]; dup {
+				fail(c, "fresh-ephemerals", "ephemeral-reuse/after-aborted", "the server response of connection %d carries the same ephemeral representative as that of connection %d (history: %s, %s, ok, ok)", i, j, first, first)
+				return
+			}
+			seen[r] = i
+		}
+	}}
+}
+
 func firstBytes(w *wire.Conn, n int) string {
 	if w.First == nil || len(w.First) < n {
 		return ""
